@@ -184,6 +184,41 @@ def wiring_case(kind, call):
     return fn
 
 
+def broadcast_case():
+    """any broadcastable tensor shapes: the functional forms act elementwise on the broadcast arguments"""
+    from pfhedge.nn import functional as F
+
+    def fn(c):
+        K = api.real(c, "K", pos=True)
+        s = api.tensor(c, "s", (2, 1))
+        t = api.tensor(c, "t", (1, 2), pos=True)
+        v = api.tensor(c, "v", (), pos=True)
+        m = api.tensor(c, "m", (2, 1))
+        fns = {
+            "bs_european_price": lambda a, b, c_, mm: F.bs_european_price(a, b, c_, K),
+            "bs_european_price(put)": lambda a, b, c_, mm: F.bs_european_price(a, b, c_, K, call=False),
+            "bs_european_delta": lambda a, b, c_, mm: F.bs_european_delta(a, b, c_),
+            "bs_european_gamma": lambda a, b, c_, mm: F.bs_european_gamma(a, b, c_, K),
+            "bs_european_vega": lambda a, b, c_, mm: F.bs_european_vega(a, b, c_, K),
+            "bs_european_theta": lambda a, b, c_, mm: F.bs_european_theta(a, b, c_, K),
+            "bs_european_binary_price": lambda a, b, c_, mm: F.bs_european_binary_price(a, b, c_),
+            "bs_european_binary_delta": lambda a, b, c_, mm: F.bs_european_binary_delta(a, b, c_, strike=K),
+            "bs_european_binary_gamma": lambda a, b, c_, mm: F.bs_european_binary_gamma(a, b, c_, strike=K),
+            "bs_american_binary_price": lambda a, b, c_, mm: F.bs_american_binary_price(a, mm, b, c_),
+            "bs_american_binary_delta": lambda a, b, c_, mm: F.bs_american_binary_delta(a, mm, b, c_, K),
+            "bs_lookback_price": lambda a, b, c_, mm: F.bs_lookback_price(a, mm, b, c_, K),
+        }
+        for name, f in fns.items():
+            out = f(s, t, v, m)
+            c.check("%s: broadcast shape" % name, tuple(out.shape) == (2, 2))
+            for i in range(2):
+                for j in range(2):
+                    one = f(s[i, 0].reshape(1), t[0, j].reshape(1), v.reshape(1), m[i, 0].reshape(1))
+                    c.check("%s[%d,%d] is the function of the broadcast arguments" % (name, i, j), api.same(api.elem(out, i, j), api.elem(one, 0)))
+
+    return fn
+
+
 def cases():
     cs = []
     enc = ("bs_european_price", "bs_european_binary_price", "bs_american_binary_price", "bs_lookback_price", "d1", "d2", "ncdf", "npdf",
@@ -203,6 +238,7 @@ def cases():
         for call in calls:
             cs.append(Case("terminal/%s/%s" % (kind, "call" if call else "put"), c18.price_case(kind, call, "t0"), xmode=True, encodes=enc,
                            families=("basic", "mono", "bounds"), batch=False, bounds="t=0, all finite log-moneyness, v>=0, K>0"))
+    cs.append(Case("broadcast", broadcast_case(), encodes=enc, families=fam, bounds="log-moneyness (2,1) x time (1,2) x scalar volatility", timeout=120))
     cs.append(Case("boundary", boundary_case(), encodes=enc, families=("basic", "mono", "bounds"), batch=False, bounds="t>0, v>0, K>0", timeout=120))
     for kind, calls in (("european", (True, False)), ("eubinary", (True, False)), ("ambinary", (True, False)), ("lookback", (True, False))):
         for call in calls:
